@@ -49,6 +49,22 @@ pub fn lib_source(spec: &Value) -> String {
         // definitions, and no export declaration at all: the library exposes nothing
         return "(define-library (lib noexp)\n  (import (scheme base))\n  (begin\n    (define weight 5)\n    (define (list . x) 'noexp-private)\n    (define (weigh) (+ weight 1))))\n".to_string();
     }
+    if spec["ovr"].as_bool().unwrap_or(false) {
+        // a library that defines, and exports, a name it also imported, and defines a name of
+        // its own again in a later block: what it exports are its own, final definitions,
+        // wherever the export declaration stands. (Redefining an imported name is an error by
+        // the report, so an implementation may refuse the library: its import is not judged.)
+        let imp = "(import (scheme base))";
+        let exp = "(export (rename abs own-abs) (rename stage stage-ovr) ovr-count)";
+        let b1 = "(begin (define stage 1) (define calls 0))";
+        let b2 = "(begin (define (abs x) (set! calls (+ calls 1)) (+ x 50)) (define (ovr-count) calls) (define stage 2))";
+        let decls = match spec["decl_shape"].as_u64().unwrap_or(0) % 3 {
+            0 => [imp, exp, b1, b2],
+            1 => [imp, b1, exp, b2],
+            _ => [imp, b1, b2, exp],
+        };
+        return format!("(define-library (lib ovr)\n  {})\n", decls.join("\n  "));
+    }
     if spec["bare"].as_bool().unwrap_or(false) {
         // a library without any import declaration: its environment is empty but for its own
         // definitions, whatever the importer has
@@ -123,23 +139,11 @@ pub fn lib_source(spec: &Value) -> String {
         exports.push(format!("(rename hi-{} lo-{})", s, s));
         exports.push(format!("(rename lo-{} hi-{})", s, s));
     }
-    // a library that defines, and exports, a name it also imported: what it exports is its own
-    // definition wherever the export declaration stands; and a name defined early and defined
-    // again at the end of the body is exported with its final value
-    if spec["override"].as_bool().unwrap_or(false) {
-        body.push(format!("(define (abs x) (+ x {}))", 50 + spec["k"].as_i64().unwrap_or(1)));
-        exports.push(format!("(rename abs own-abs-{})", s));
-        body.insert(0, "(define stage 1)".to_string());
-        exports.push(format!("(rename stage stage-{})", s));
-    }
     // an exported constant, and (optionally) a re-export of a dependency's procedure
     exports.push(format!("(rename k const-{})", s));
     body.push(format!("(define k {})", 700 + spec["k"].as_i64().unwrap_or(1)));
     if let Some(j) = reexport_target(spec) {
         exports.push(format!("(rename {} bump-{}-from-{})", dep_next_name(spec, &j), j, s));
-    }
-    if spec["override"].as_bool().unwrap_or(false) {
-        body.push("(define stage 2)".to_string());
     }
     if spec["health"].as_str() == Some("faulting-body") {
         let fault = spec["fault"].as_str().unwrap_or("(car 5)");
@@ -514,7 +518,6 @@ fn gen_lib(rng: &mut Rng, short: &str, imports: Vec<String>, health: &str, allow
         "layout": rng.below(8),
         "layout_other": layout_other,
         "decl_shape": rng.below(6),
-        "override": rng.chance(1, 3),
     })
 }
 
@@ -530,6 +533,13 @@ fn external_names(spec: &Value) -> Vec<(String, String)> {
     }
     if spec["native"].as_bool().unwrap_or(false) {
         return vec![("nat-box".to_string(), "box".to_string())];
+    }
+    if spec["ovr"].as_bool().unwrap_or(false) {
+        return vec![
+            ("own-abs".to_string(), "use-helper".to_string()),
+            ("stage-ovr".to_string(), "const".to_string()),
+            ("ovr-count".to_string(), "look".to_string()),
+        ];
     }
     if spec["bare"].as_bool().unwrap_or(false) {
         return vec![
@@ -557,10 +567,6 @@ fn external_names(spec: &Value) -> Vec<(String, String)> {
     v.push((format!("use-twice-{}", s), "use-helper".to_string()));
     if spec["spoiler"].as_bool().unwrap_or(false) {
         v.push((format!("spoil-{}!", s), "spoil".to_string()));
-    }
-    if spec["override"].as_bool().unwrap_or(false) {
-        v.push((format!("own-abs-{}", s), "use-helper".to_string()));
-        v.push((format!("stage-{}", s), "const".to_string()));
     }
     if spec["collide"].as_bool().unwrap_or(false) {
         v.push((format!("use-aux-{}", s), "use-helper".to_string()));
@@ -619,6 +625,18 @@ pub fn generate_c13(seed: u64, quick: bool) -> Value {
     }
     if with_base {
         ops.push(json!({"op": "eval", "k": "import-base", "t": "(import (scheme base))"}));
+    }
+    if rng.chance(1, 4) {
+        let spec = json!({
+            "short": "ovr", "ovr": true, "imports": [], "health": "healthy",
+            "delivery": if rng.chance(1, 3) { "registered" } else { "file" },
+            "decl_shape": rng.below(3),
+        });
+        for (name, kind) in external_names(&spec) {
+            visible.insert(name, Visible { lib: "ovr".into(), kind });
+        }
+        libs.push(spec);
+        ops.push(json!({"op": "eval", "k": "import-overriding-library", "t": "(import (lib ovr))"}));
     }
     // phase 1: imports, possibly several declarations, with driver-level probes between
     let nimports = rng.range(1, n as i64 + 1) as usize;
@@ -1043,6 +1061,23 @@ fn execute_c13(case: Value) -> RunResult {
                         break;
                     }
                 };
+                if kind == "import-overriding-library" || kind == "import-exposing-nothing" {
+                    // the implementation may refuse such a library; the model follows what it did
+                    let got = eval_outcome(&mut it, &text);
+                    if matches!(got, Outcome::Value(_)) {
+                        let _ = m.eval_top(&sx);
+                    }
+                    res.log.push(format!("{:>3} [{}] {} => {} | (not judged)", step, kind, text, got.short()));
+                    if let Outcome::Panic(p) = &got {
+                        res.violation = Some(Violation {
+                            signature: format!("C13/panic/{}", p.signature()),
+                            detail: json!({"step": step, "op": text, "panic": p.message}),
+                        });
+                        break;
+                    }
+                    res.count("probe.library_redefines_imported_name");
+                    continue;
+                }
                 if kind == "call-spoil" {
                     // assigning an imported name is an error by the report: the implementation may
                     // refuse it (then nothing happened) or apply it to that library's own view.
